@@ -456,10 +456,7 @@ def run(res):
         elif k == "unsupported":
             unsupported[" ".join(v.split()[:4])] += 1
         elif k == "reject":
-            if p["family"] == "x64-avx512":
-                stats["avx512_refused_untriaged"] += 1      # executed on the host; a refusal alone is not reported for this family yet
-            else:
-                rejects.append(i)
+            rejects.append(i)
         elif k == "sererr":
             rejects.append(i)
         n, bad, und = judge_exec(p, o)
